@@ -41,6 +41,7 @@ def spec_strategy(max_len):
         'kvar': kvar,
         'vlen': st.sampled_from([0, 0, 0, -1, 1, -2, 3]),
         'layout': st.sampled_from(LAYOUTS),
+        'arrform': st.sampled_from(['plain', 'plain', 'column-view', 'readonly-view']),
         'rank': st.sampled_from([1, 2]),
         'rho': specs.logfloat(-3, 0, 4)})
 
@@ -174,14 +175,38 @@ class Tabulated(Sub):
             else:
                 caller = vals.copy()
                 caller_k = None if kcol is None else kcol.copy()
+                form = spec.get('arrform', 'plain')
+                parent = None
+                if form != 'plain':
+                    # the caller hands over columns of a larger (n,2) array -- optionally flagged read-only, which says nothing
+                    # about the parent: it stays writeable and is changed afterwards
+                    parent = np.empty((len(vals), 2))
+                    parent[:, 1] = vals
+                    parent[:, 0] = kcol if (kcol is not None and len(kcol) == len(vals)) else 0.0
+                    caller = parent[:, 1]
+                    if kcol is not None and len(kcol) == len(vals):
+                        caller_k = parent[:, 0]
+                    if form == 'readonly-view':
+                        caller.setflags(write=False)
+                        if caller_k is not None and caller_k.base is not None:
+                            caller_k.setflags(write=False)
+                    out.label('array=' + form)
                 make = lambda: P.omega.FromArray(vals.copy(), None if kcol is None else kcol.copy())
             om = make() if caller is None else P.omega.FromArray(caller, caller_k)
             if caller is not None:
                 # later changes to the caller's arrays must not leak into the stored values
-                caller += 1.0
-                caller *= -3.0
-                if caller_k is not None:
-                    caller_k *= 2.0
+                if parent is not None:
+                    parent[:, 1] += 1.0
+                    parent[:, 1] *= -3.0
+                    if caller_k is not None and caller_k.base is not None:
+                        parent[:, 0] *= 2.0
+                    elif caller_k is not None:
+                        caller_k *= 2.0
+                else:
+                    caller += 1.0
+                    caller *= -3.0
+                    if caller_k is not None:
+                        caller_k *= 2.0
             # ---- calculate level
             must_raise_at_calculate = (not match) and (source != 'file1')
             try:
